@@ -443,9 +443,16 @@ func (in *shredInterp) assign(x *ast.AssignStmt, st *shState) {
 func (tv *tvChecker) checkShred(c *column, fd *ast.FuncDecl) ([]string, int) {
 	in := &shredInterp{tv: tv, c: c, seen: map[string]bool{}, params: map[string]types.Object{}}
 	st := &shState{present: map[int]int{}, lastRep: -1, bind: map[types.Object]sv{}, idx: map[types.Object]int{}}
+	// parameters by position: the record, then (for columns with levels) values, definition levels, repetition levels
+	var plist []types.Object
 	for _, f := range fd.Type.Params.List {
 		for _, n := range f.Names {
-			in.params[n.Name] = tv.info.Defs[n]
+			plist = append(plist, tv.info.Defs[n])
+		}
+	}
+	for i, role := range []string{"x", "vals", "defs", "reps"} {
+		if i < len(plist) {
+			in.params[role] = plist[i]
 		}
 	}
 	xo := in.params["x"]
